@@ -74,7 +74,11 @@ void (*keep_env)(volatile long*) = myth_verif_env_step;   /* keeps the contract 
 myth_join_counter_t JC;
 volatile long * verif_word(void) { return &JC.state; }
 struct myth_running_env ENV;
-struct myth_thread TH[6];
+#ifndef WM_N
+#define WM_N 4
+#endif
+#define WM_N_MAX (WM_N + 2)
+struct myth_thread TH[WM_N_MAX];        /* WM_N_MAX >= WM_N + 2 */
 
 /* ---------------- contracts of callees ---------------- */
 
